@@ -20,6 +20,8 @@ the same statements on the same state).
 Added after the seeding rounds (DESIGN.md 6.6-6.8):
  PROTOCOL.rows / PROTOCOL.state  every output row of a batch loop comes from the streaming (or per-sample) method and the batch routine assigns no attribute the
             streaming method reads; RECOMPUTED  AQUA.alpha is a function of the current sample only.
+Added after seeding rounds 5 and 6 and refactoring round 4 (DESIGN.md 6.10-6.12):
+ PROTOCOL.rows also covers block stores outside the loops; hoisted optional samples accepted.
 """
 import ast
 LINT_EXTRA_FILES = ("ahrs/common/orientation.py", "ahrs/utils/core.py")      # acc2q / am2q / ecompass helpers the filters start from; the shared input validators
